@@ -434,3 +434,138 @@ Definition spec (s : scenario) (o : obs) : bool :=
   (o_run o =? N.of_nat (length (filter (fun tc => negb (skipped (s_run_ign s) tc)) (s_tests s)))) &&
   (o_ign o =? N.of_nat (length (filter (skipped (s_run_ign s)) (s_tests s)))) &&
   negb (o_late o).
+
+(* ------------------------------------------------------------------------------------------------------------------
+   7. several runAllTests passes over ONE registry (what -r does, and what a program calling runAllTests twice does)
+   ------------------------------------------------------------------------------------------------------------------
+   Between two passes a program may switch on the registry-wide separate-process mode and the run-ignored mode
+   (TestRegistry::setRunTestsInSeperateProcess / setRunIgnored: there is no way to switch them off again) and add tests.
+   The shells carry their own two flags (UtestShell::isRunAsSeperateProcess_, IgnoredUtestShell::runIgnored_); the loop of
+   runAllTests pushes the registry's switches onto every shell it meets, in EVERY pass:
+       for (test = tests_; test; test = test->getNext()) {
+           if (runInSeperateProcess_) test->setRunInSeperateProcess();
+           if (runIgnored_) test->setRunIgnored();
+           ... test->runOneTest(firstPlugin_, result); ... }
+   Every pass has a TestResult of its own (CommandLineTestRunner::runAllTests builds one per repetition). *)
+Record mcase := { m_from : nat;       (* the test shows its behaviour from this pass on (passes count from 0); in the passes
+                                         before, it is an empty, passing test (a test that looks at a static counter) *)
+                  m_own : bool;       (* the shell was given a separate-process flag of its own when it was made *)
+                  m_case : tcase }.
+Record step := { st_sep : bool;       (* setRunTestsInSeperateProcess() is called before this pass *)
+                 st_ri : bool;        (* setRunIgnored() is called before this pass *)
+                 st_add : list mcase }.   (* tests added before this pass, in the order in which they will be met: addTest
+                                             puts a test in front of all the tests the registry has *)
+Definition mscenario := list step.
+
+Record shell := { sh_def : mcase; sh_sep : bool; sh_ri : bool }.
+Record registry := { r_sep : bool; r_ri : bool; r_tests : list shell }.
+Definition new_registry : registry := {| r_sep := false; r_ri := false; r_tests := [] |}.
+Definition new_shell (mc : mcase) : shell := {| sh_def := mc; sh_sep := m_own mc; sh_ri := false |}.
+Definition apply_step (r : registry) (st : step) : registry :=
+  {| r_sep := if st_sep st then true else r_sep r;
+     r_ri := if st_ri st then true else r_ri r;
+     r_tests := map new_shell (st_add st) ++ r_tests r |}.
+
+(* the test as it behaves in pass k *)
+Definition eff (k : nat) (mc : mcase) : tcase :=
+  if (k <? m_from mc)%nat then {| c_ign := c_ign (m_case mc); c_test := TPlain false |} else m_case mc.
+
+(* if (runInSeperateProcess_) test->setRunInSeperateProcess(); if (runIgnored_) test->setRunIgnored(); *)
+Definition push (r : registry) (sh : shell) : shell :=
+  {| sh_def := sh_def sh;
+     sh_sep := if r_sep r then true else sh_sep sh;
+     sh_ri := if r_ri r then true else sh_ri sh |}.
+
+(* the loop of one pass: the flags are pushed, then the shell is run on ITS flags; the shells keep what was pushed *)
+Fixpoint run_shells (r : registry) (k : nat) (count : N) (shs : list shell) : list item * N * list shell :=
+  match shs with
+  | [] => ([], count, [])
+  | sh :: tl =>
+      let sh' := push r sh in
+      let it := run_case (sh_sep sh') (sh_ri sh') count (eff k (sh_def sh')) in
+      let '(its, c, tl') := run_shells r k (count + N.of_nat (length (i_fails it))) tl in
+      (it :: its, c, sh' :: tl')
+  end.
+
+(* countRun / countIgnored as the loop meets the shells (flags as they are after the push) *)
+Fixpoint count_shells (k : nat) (nrun nign : N) (shs : list shell) : N * N :=
+  match shs with
+  | [] => (nrun, nign)
+  | sh :: tl => if skipped (sh_ri sh) (eff k (sh_def sh)) then count_shells k nrun (nign + 1) tl
+                else count_shells k (nrun + 1) nign tl
+  end.
+
+Definition run_pass (r : registry) (k : nat) : obs * registry :=
+  let '(its, total, shs) := run_shells r k 0 (r_tests r) in
+  let (nrun, nign) := count_shells k 0 0 shs in
+  ({| o_items := its; o_total := total; o_failed := negb (total =? 0) || (nrun + nign =? 0);
+      o_run := nrun; o_ign := nign; o_late := false |},
+   {| r_sep := r_sep r; r_ri := r_ri r; r_tests := shs |}).
+
+Fixpoint run_steps (r : registry) (k : nat) (sts : list step) : list obs :=
+  match sts with
+  | [] => []
+  | st :: tl => let (o, r') := run_pass (apply_step r st) k in o :: run_steps r' (S k) tl
+  end.
+
+(* what is seen of the whole program: one observation per pass, and whether the runner's own process died (killed, exited
+   or stopped from inside a test) before the last pass was over -- which the code must never let happen *)
+Record mobs := { mo_passes : list obs; mo_died : bool }.
+Definition run_m (s : mscenario) : mobs := {| mo_passes := run_steps new_registry 0 s; mo_died := false |}.
+
+(* a one-pass scenario of section 4 as a program of one step; with all_sep = 0 the harness gives scripted and real tests
+   a flag of their own *)
+Definition needs_child (t : test) : bool := match t with TPlain _ => false | _ => true end.
+Definition embed (s : scenario) : mscenario :=
+  [ {| st_sep := s_all_sep s; st_ri := s_run_ign s;
+       st_add := map (fun tc => {| m_from := 0; m_own := negb (s_all_sep s) && needs_child (c_test tc); m_case := tc |})
+                     (s_tests s) |} ].
+
+(* ---- the property over several passes, read off the program text alone (no registry, no shells, no flags):
+   in pass k the switches that count are the ones switched on before any of the passes 0..k, the tests are the ones added
+   before any of them (the later added first), a test is in separate-process mode iff it has a flag of its own or the switch
+   is on, and every test is held to the one-pass account of section 6 for what it is in pass k. ---- *)
+Definition upto (k : nat) (s : mscenario) : list step := firstn (S k) s.
+Definition want_sep (s : mscenario) (k : nat) : bool := existsb st_sep (upto k s).
+Definition want_ri (s : mscenario) (k : nat) : bool := existsb st_ri (upto k s).
+Definition present (s : mscenario) (k : nat) : list mcase := flat_map st_add (rev (upto k s)).
+
+Fixpoint items_ok_m (wsep wri : bool) (k : nat) (mcs : list mcase) (its : list item) : bool :=
+  match mcs, its with
+  | [], [] => true
+  | mc :: tl, it :: itl => case_item_ok (m_own mc || wsep) wri (eff k mc) it && items_ok_m wsep wri k tl itl
+  | _, _ => false
+  end.
+
+Definition pass_ok (s : mscenario) (k : nat) (o : obs) : bool :=
+  let wsep := want_sep s k in
+  let wri := want_ri s k in
+  let mcs := present s k in
+  items_ok_m wsep wri k mcs (o_items o) &&
+  (o_total o =? total_fails (o_items o)) &&
+  Bool.eqb (o_failed o) (negb (o_total o =? 0)) &&
+  (o_run o =? N.of_nat (length (filter (fun mc => negb (skipped wri (m_case mc))) mcs))) &&
+  (o_ign o =? N.of_nat (length (filter (fun mc => skipped wri (m_case mc)) mcs))) &&
+  negb (o_late o).
+
+Fixpoint passes_ok (s : mscenario) (k : nat) (os : list obs) : bool :=
+  match os with
+  | [] => true
+  | o :: tl => pass_ok s k o && passes_ok s (S k) tl
+  end.
+
+(* the runner lived through all the passes, and every pass is in order *)
+Definition spec_m (s : mscenario) (o : mobs) : bool :=
+  negb (mo_died o) && (length (mo_passes o) =? length s)%nat && passes_ok s 0 (mo_passes o).
+
+(* the judged domain: at least one test from the first pass on (isFailure of an empty run is outside the property), well-formed
+   tests, and -- the property speaks of tests run in a separate process -- a scripted or real test that is run and shows its
+   behaviour in pass k is in separate-process mode in pass k (a test that kills the process it runs in, run in the runner's own
+   process by the program's own choice, is not a containment question) *)
+Definition mode_ok (wsep wri : bool) (k : nat) (mc : mcase) : bool :=
+  if negb (k <? m_from mc)%nat && negb (skipped wri (m_case mc)) && needs_child (c_test (m_case mc))
+  then m_own mc || wsep else true.
+Definition valid_m (s : mscenario) : bool :=
+  match s with [] => false | st :: _ => match st_add st with [] => false | _ => true end end &&
+  forallb (fun st => forallb (fun mc => case_ok (m_case mc)) (st_add st)) s &&
+  forallb (fun k => forallb (mode_ok (want_sep s k) (want_ri s k) k) (present s k)) (seq 0 (length s)).
